@@ -467,6 +467,11 @@ func (b *bitstream) validateAnnotatedValue(remainingLength uint64) error {
 		return &SyntaxError{"an annotation cannot be the enclosed value of another annotation", b.pos}
 	}
 
+	// The 'length' of a bool stores its value; true (0x11) has no body either.
+	if code == bitcodeFalse && length == 1 {
+		length = 0
+	}
+
 	// Adjust remainingLength because we just processed the first byte of the annotated data.
 	remainingLength--
 
